@@ -37,7 +37,7 @@ Definition has_key_for (pk : list nat) (k : key) (r : irow) : Prop :=
 Inductive rstmt :=
 | RUpd (m : list key) (u : row -> row) (trk : list nat)
 | RDel (m : list key)
-| RIns (krs : tbl) (listed : option (list key)) (last_id : Z) (trk : list nat).
+| RIns (krs : tbl) (listed : option (list key)) (last_id : Z * Z) (trk : list nat).
 
 Definition stmt_res (pk all : list nat) (s : rstmt) (t : tbl) : res :=
   match s with
